@@ -24,7 +24,13 @@ distribution = PC.distribution
 
 
 def gen_cases(seed, tier):
-    return PC.stream(seed, tier)
+    import docgen
+    cases = PC.stream(seed, tier)
+    # pylatexenc-2 verbatim parsers with arguments in front of the verbatim text (real code only)
+    for s in docgen.exhaustive(docgen.SYM_LEGACYVERB, 3 if tier == 'quick' else 4):
+        for tol in (False, True):
+            cases.append(PC.mk_case('legacyverb', s, tol, 'legacyverb'))
+    return cases
 
 
 def impl(c):
